@@ -1024,10 +1024,9 @@ func runMode(shardFile string, shard, nshards int) {
 				}
 				if p != nil && p.mismatch {
 					sig := "reader-differs-from-revision-history"
-					// a hybrid section hides an object (free in the table, real entry in /XRefStm) and the
-					// Reader differs from the reference exactly where the faithful model is known to
-					mdiff := strings.TrimPrefix(f[7], "mdiff=")
-					if hides && explainedBy(p.obs, expect[id].ref, mdiff) {
+					// a hybrid section of this file hides an object (free in the table, real entry in
+					// /XRefStm): fixed by F39; named separately for the diagnosis only
+					if hides {
 						sig = "hybrid-hidden-object-read-as-free"
 					}
 					failCapped(e, sig, "Reader.Get / trailer differ from the reference model (apply revisions oldest to newest)",
